@@ -551,6 +551,145 @@ theorem walk_noOOF {κ : Type} (frags : List (String × Node κ)) (dflt : FieldC
           · exact hs hy
         · simp only [List.length_cons]; omega
 
+/-! ### No panic and balanced stacks for *every* document (also outside the property's domain) -/
+
+/-- `res` succeeds leaving the stacks `ms`, `cs`, or stops with an error that is not a panic. -/
+def Safe {κ : Type} (res : Except Abort (St κ)) (ms : List Int) (cs : List κ) : Prop :=
+  (∃ st', res = .ok st' ∧ st'.mults = ms ∧ st'.ctxs = cs) ∨ (∃ e, res = .error e ∧ e.NotPanic)
+
+theorem Safe.bind {κ : Type} {res : Except Abort (St κ)} {f : St κ → Except Abort (St κ)}
+    {ms ms' : List Int} {cs cs' : List κ} (h : Safe res ms cs)
+    (hf : ∀ st', st'.mults = ms → st'.ctxs = cs → Safe (f st') ms' cs') : Safe (res >>= f) ms' cs' := by
+  rcases h with ⟨st', he, h1, h2⟩ | ⟨e, he, hp⟩
+  · rw [he]; exact hf st' h1 h2
+  · rw [he]; exact Or.inr ⟨e, rfl, hp⟩
+
+theorem pop_safe {κ : Type} (st : St κ) (m : Int) (ms : List Int) (c : κ) (cs : List κ)
+    (h1 : st.mults = m :: ms) (h2 : st.ctxs = c :: cs) : Safe (pop st) ms cs := by
+  obtain ⟨cost, mults, ctxs⟩ := st
+  simp only at h1 h2
+  subst h1; subst h2
+  exact Or.inl ⟨_, rfl, rfl, rfl⟩
+
+theorem mul_ok (a b : Int) : ∃ v, mul a b = .ok v := by
+  unfold mul liftArith
+  have := mul_isSome a b
+  cases h : Generated.checkedNonNegativeMultiply a b with
+  | none => rw [h] at this; cases this
+  | some v => exact ⟨v, rfl⟩
+
+theorem add_ok (a b : Int) : ∃ v, add a b = .ok v := by
+  unfold add liftArith
+  have := add_isSome a b
+  cases h : Generated.checkedNonNegativeAdd a b with
+  | none => rw [h] at this; cases this
+  | some v => exact ⟨v, rfl⟩
+
+theorem charge_ok {κ : Type} (fc : FieldCost κ) (st : St κ) (m : Int) (c : κ) :
+    ∃ cost newM newC, charge fc st m c = .ok ({ st with cost := cost }, newM, newC) := by
+  obtain ⟨ctx, r, mu⟩ := fc
+  unfold charge
+  obtain ⟨p, hp⟩ := mul_ok m r
+  obtain ⟨s, hs⟩ := add_ok st.cost p
+  by_cases hgt : mu > 1
+  · obtain ⟨nm, hnm⟩ := mul_ok m mu
+    refine ⟨s, nm, ctx.getD c, ?_⟩
+    cases ctx <;> simp only [hp, hs, hgt, if_true, hnm, bind, Except.bind, Option.getD]
+  · refine ⟨s, m, ctx.getD c, ?_⟩
+    cases ctx <;> simp only [hp, hs, hgt, if_false, bind, Except.bind, Option.getD]
+
+mutual
+theorem visit_safe {κ : Type} (W : String → St κ → Except Abort (St κ))
+    (hW : ∀ name (st : St κ) m ms c cs, st.mults = m :: ms → st.ctxs = c :: cs →
+      Safe (W name st) (m :: ms) (c :: cs)) (dflt : FieldCost κ) :
+    ∀ (node : Node κ) (st : St κ) (m : Int) (ms : List Int) (c : κ) (cs : List κ),
+      st.mults = m :: ms → st.ctxs = c :: cs → Safe (visit W dflt node st) (m :: ms) (c :: cs)
+  | .field src children, st, m, ms, c, cs, h1, h2 => by
+    obtain ⟨cost, mults, ctxs⟩ := st
+    simp only at h1 h2
+    subst h1; subst h2
+    have key : ∀ (st1 : St κ) (newM : Int) (newC : κ), st1.mults = m :: ms → st1.ctxs = c :: cs →
+        Safe (visitList W dflt children (push st1 newM newC) >>= pop) (m :: ms) (c :: cs) := by
+      intro st1 newM newC e1 e2
+      refine Safe.bind (visitList_safe W hW dflt children (push st1 newM newC) newM (m :: ms) newC (c :: cs)
+        (by simp [push, e1]) (by simp [push, e2])) ?_
+      intro st' e1' e2'
+      exact pop_safe st' newM (m :: ms) newC (c :: cs) e1' e2'
+    cases src with
+    | typename => simp only [visit, bind, Except.bind]; exact key _ m c rfl rfl
+    | unknown => simp only [visit, bind, Except.bind]; exact Or.inr ⟨_, rfl, fun w h => by cases h⟩
+    | argError => simp only [visit, bind, Except.bind]; exact Or.inr ⟨_, rfl, fun w h => by cases h⟩
+    | default =>
+      obtain ⟨cost', newM, newC, hc⟩ := charge_ok dflt { cost := cost, mults := m :: ms, ctxs := c :: cs } m c
+      simp only [visit, bind, Except.bind, hc]
+      exact key _ newM newC rfl rfl
+    | fn f =>
+      obtain ⟨cost', newM, newC, hc⟩ := charge_ok (f c) { cost := cost, mults := m :: ms, ctxs := c :: cs } m c
+      simp only [visit, bind, Except.bind, hc]
+      exact key _ newM newC rfl rfl
+  | .spread name children, st, m, ms, c, cs, h1, h2 => by
+    obtain ⟨cost, mults, ctxs⟩ := st
+    simp only at h1 h2
+    subst h1; subst h2
+    simp only [visit]
+    refine Safe.bind (hW name _ m ms c cs rfl rfl) ?_
+    intro st1 e1 e2
+    refine Safe.bind (visitList_safe W hW dflt children (push st1 m c) m (m :: ms) c (c :: cs)
+      (by simp [push, e1]) (by simp [push, e2])) ?_
+    intro st' e1' e2'
+    exact pop_safe st' m (m :: ms) c (c :: cs) e1' e2'
+  | .other children, st, m, ms, c, cs, h1, h2 => by
+    obtain ⟨cost, mults, ctxs⟩ := st
+    simp only at h1 h2
+    subst h1; subst h2
+    simp only [visit]
+    refine Safe.bind (visitList_safe W hW dflt children (push _ m c) m (m :: ms) c (c :: cs)
+      (by simp [push]) (by simp [push])) ?_
+    intro st' e1' e2'
+    exact pop_safe st' m (m :: ms) c (c :: cs) e1' e2'
+theorem visitList_safe {κ : Type} (W : String → St κ → Except Abort (St κ))
+    (hW : ∀ name (st : St κ) m ms c cs, st.mults = m :: ms → st.ctxs = c :: cs →
+      Safe (W name st) (m :: ms) (c :: cs)) (dflt : FieldCost κ) :
+    ∀ (nodes : List (Node κ)) (st : St κ) (m : Int) (ms : List Int) (c : κ) (cs : List κ),
+      st.mults = m :: ms → st.ctxs = c :: cs → Safe (visitList W dflt nodes st) (m :: ms) (c :: cs)
+  | [], st, m, ms, c, cs, h1, h2 => by
+    simp only [visitList]; exact Or.inl ⟨st, rfl, h1, h2⟩
+  | n :: ns, st, m, ms, c, cs, h1, h2 => by
+    simp only [visitList]
+    refine Safe.bind (visit_safe W hW dflt n st m ms c cs h1 h2) ?_
+    intro st' e1 e2
+    exact visitList_safe W hW dflt ns st' m ms c cs e1 e2
+end
+
+theorem walk_safe {κ : Type} (frags : List (String × Node κ)) (dflt : FieldCost κ) :
+    ∀ (fuel : Nat) (path : List String) (node : Node κ) (st : St κ) (m : Int) (ms : List Int) (c : κ)
+      (cs : List κ), st.mults = m :: ms → st.ctxs = c :: cs →
+      Safe (walk frags dflt fuel path node st) (m :: ms) (c :: cs) := by
+  intro fuel
+  induction fuel with
+  | zero =>
+    intro path node st m ms c cs h1 h2
+    simp only [walk]
+    refine visit_safe _ ?_ dflt node st m ms c cs h1 h2
+    intro name st' m' ms' c' cs' _ _
+    unfold onSpreadWith
+    split
+    · exact Or.inr ⟨_, rfl, fun w h => by cases h⟩
+    · split
+      · exact Or.inr ⟨_, rfl, fun w h => by cases h⟩
+      · exact Or.inr ⟨_, rfl, fun w h => by cases h⟩
+  | succ f ih =>
+    intro path node st m ms c cs h1 h2
+    simp only [walk]
+    refine visit_safe _ ?_ dflt node st m ms c cs h1 h2
+    intro name st' m' ms' c' cs' e1 e2
+    unfold onSpreadWith
+    split
+    · exact Or.inr ⟨_, rfl, fun w h => by cases h⟩
+    · split
+      · exact Or.inr ⟨_, rfl, fun w h => by cases h⟩
+      · exact ih _ _ st' m' ms' c' cs' e1 e2
+
 /-! ### Validated documents are in the reference's domain -/
 
 /-- The field has a definition and its arguments coerce. -/
